@@ -84,6 +84,11 @@ Example until_end_example :
   /\ is_end_line (lit "END") = true /\ is_end_line (lit "End") = true /\ is_end_line (lit " END") = false /\ is_end_line (lit "EN") = false.
 Proof. vm_compute. repeat split. Qed.
 
+Example include_name_example :
+  include_name (lit "+a.txt") = Some (lit "a.txt") /\ include_name (lit "++a.txt  ") = Some (lit "a.txt") /\ include_name (lit "+ dir/a b.txt ") = Some (lit "dir/a b.txt")
+  /\ include_name (lit " +a.txt") = None /\ include_name (lit "C1 1 0 0 0") = None.
+Proof. vm_compute. repeat split. Qed.
+
 (* ---------- a printed number is printed the same way again ---------- *)
 Local Open Scope Q_scope.
 Theorem scaled_denote k n : scaled k (denote k n) = n.
